@@ -72,13 +72,95 @@ def mutex_prop(pid, pbit, fair_only=False):
             "assumptions": []}
 
 
+SEM = "sync::semaphore::verif_sem::proofs"
+SEM_FUNCS = [
+    "SemaphoreState::wakeup_waiters", "SemaphoreState::release", "SemaphoreState::try_acquire_sync",
+    "SemaphoreState::try_acquire", "SemaphoreState::remove_waiter", "SemaphoreState::force_remove_waiter",
+    "<GenericSemaphoreAcquireFuture as Future>::poll", "<GenericSemaphoreAcquireFuture as Drop>::drop",
+    "<GenericSemaphoreReleaser as Drop>::drop", "GenericSemaphoreReleaser::disarm", "GenericSemaphore::try_acquire",
+    "GenericSemaphore::release", "GenericSemaphore::permits", "GenericSemaphore::acquire", "utils::update_waker_ref",
+    "LinkedList::add_front", "LinkedList::remove", "LinkedList::remove_last", "LinkedList::peek_last_mut",
+    "LinkedList::is_empty",
+]
+
+
+def sem_cfg(fm, pre, k=0):
+    return fm | (pre << 2) | (k << 4)
+
+
+def sem_prop(pid, pbit, modes, step_names, extra_quick=(), extra_thorough=()):
+    """modes: list of (mode tag, fairness mode value)"""
+    tag = pid.lower()
+    quick, thorough = [], []
+    for sn in step_names:
+        quick.append(H(SEM, sn, "step", est_s=60,
+                       bounds="E-STEP: K=3 acquire futures in arbitrary poll states/queue order/stored wakers, "
+                              "permits and requests 0..3 (step_c05_wide: < 2^62), 1 arbitrary operation"))
+    quick.append(H(SEM, "step_base", "hold", est_s=5, bounds="base case of the invariant"))
+    alpha = ("19-way alphabet (poll A|B x3, cancel x3, releaser drop x4, disarm x4, release(a), try_acquire(a)), "
+             "initial permits/requests/amounts 0..3, slot/waker symmetry broken")
+    for (mt, mv) in modes:
+        def hj(v, pre, n, tier_list, lock="noop", est=300, bonus=False, suffix=""):
+            tier_list.append(H(SEM, "hist_%s_%s_%s%s" % (tag, mt, v, suffix), "hold",
+                               replay=("sem_hist_%s" % lock, sem_cfg(mv, pre)), mask=P(pbit), est_s=est,
+                               timeout=(900 if tier_list is quick else 3400), bonus=bonus,
+                               bounds="E-HIST: K=3 slots (re-creatable), %d operations from new() of which the first %d are "
+                                      "fixed to 'poll a fresh future' (partition), %s%s" % (
+                                          n, pre, alpha, ", MutexType=CheckLock" if lock == "check" else "")))
+        hj("p0_n4", 0, 4, quick)
+        hj("p2_n5", 2, 5, quick)
+        hj("p0_n5", 0, 5, thorough, est=1200)
+        hj("p2_n6", 2, 6, thorough, est=1500)
+        hj("p3_n6", 3, 6, thorough, est=1200)
+        hj("p2_n5", 2, 5, thorough, lock="check", est=600, suffix="_check")
+        hj("p3_n7", 3, 7, thorough, est=3000, bonus=True)
+    quick.append(H(SEM, "witness_release_p2_n4", "witness", replay=("sem_hist_noop", sem_cfg(2, 2)), mask=PALL,
+                   witness_bit=1, est_s=150, bounds="witness twin: must reach 'release wakes the head with 2 pending'"))
+    quick += list(extra_quick)
+    thorough = quick + thorough + list(extra_thorough)
+    return {"quick": quick, "thorough": thorough, "functions": SEM_FUNCS,
+            "instantiations": ["GenericSemaphore<NoopLock>", "GenericSemaphore<CheckLock> (thorough)"],
+            "bounds": {"quick": {"K_live_futures": 3, "N_ops": "4 unrestricted / 5 with 2-poll prefix", "amounts": "0..3",
+                                 "step_history_length": "unbounded (inductive)"},
+                       "thorough": {"K_live_futures": 3, "N_ops": "5 unrestricted / 6 with 2- or 3-poll prefix (7 bonus)",
+                                    "amounts": "0..3", "step_history_length": "unbounded (inductive)"}},
+            "assumptions": ["release() overflow of the permit counter (a TODO in the source) is excluded by bounding amounts"]}
+
+
 PROPS = {
+    "C05": sem_prop("C05", 5, [("x", 2)], ["step_c05", "step_c05_wide"]),
+    "C06": sem_prop("C06", 6, [("u", 0), ("f", 1)],
+                    ["step_c06_poll", "step_c06_drop", "step_c06_release", "step_c06_try"],
+                    extra_quick=[H(SEM, "witness_cancel_head_p2_n4", "witness", replay=("sem_hist_noop", sem_cfg(2, 2)),
+                                   mask=PALL, witness_bit=2, est_s=120,
+                                   bounds="witness twin: must reach 'pending head cancelled with a waiter behind'")]),
+    "C07": sem_prop("C07", 7, [("f", 1)], ["step_c07"]),
     "C02": mutex_prop("C02", 2),
     "C03": mutex_prop("C03", 3),
     "C04": mutex_prop("C04", 4, fair_only=True),
 }
 
-CUSTOM = {}
+def _c16(prop, tier, seed):
+    import os, sys
+    sys.path.insert(0, os.path.join(os.path.dirname(os.path.abspath(__file__)), "c16"))
+    import check_c16
+    return check_c16.run(prop, tier, seed)
+
+
+CUSTOM = {"C16": _c16}
+PROPS["C16"] = {
+    "quick": [], "thorough": [], "engine": "trait-smt",
+    "technique": "SMT (z3, cross-checked with cvc5) over trait-membership formulas regenerated from rustc's impl table; counterexamples replayed by rustc on a probe crate",
+    "level_text": "Every Send/Sync/Unpin fact about the public types is a boolean formula over the unknown auto-trait facts of the lock, payload "
+                  "and buffer type parameters. The formulas are regenerated on every run from rustc's own impl table (rustdoc JSON, which "
+                  "includes the auto-trait impls rustc synthesised), the property's soundness and regression obligations are decided for ALL "
+                  "assignments of the atoms by z3 and again by cvc5, the encoding is validated against rustc on a full matrix of witness "
+                  "instantiations, and a satisfiable soundness query is reported only if rustc accepts the corresponding probe program.",
+    "level_note": "Trusted: nightly rustdoc JSON, z3, cvc5, rustc's trait solver, the exposure rows in /verif/c16/spec.py (the specification). "
+                  "Outside the claim: unsafe user code, lock types that are Sync but not Send, impl clauses outside the conjunctive fragment "
+                  "(reported as inconclusive).",
+    "design_ref": "DESIGN.md section 6 / C16",
+}
 
 # ---------------------------------------------------------------------------
 # script decoders (for replay files and evidence samples)
@@ -106,7 +188,50 @@ def decode_mutex(cfg, script):
     return out
 
 
-DECODERS = {"mutex_hist_noop": decode_mutex, "mutex_hist_check": decode_mutex}
+def decode_sem(cfg, script):
+    out = []
+    it = iter(script)
+    nx = lambda: next(it, 0)
+    fm, pre = cfg & 3, (cfg >> 2) & 3
+    fair = bool(nx()) if fm == 2 else (fm == 1)
+    out.append("new(fair=%s, permits=%d)" % (fair, nx()))
+    q = [nx(), nx(), nx()]
+    out.append("acquire futures #0,#1,#2 request %s permits" % q)
+    alive = [True] * 3
+    step = 0
+    while True:
+        step += 1
+        if step <= pre:
+            op = (step - 1) * 2
+        else:
+            op = next(it, None)
+            if op is None:
+                break
+        if op < 6:
+            i = op // 2
+            if not alive[i]:
+                a = nx()
+                out.append("re-create acquire future #%d requesting %d" % (i, a))
+                alive[i] = True
+            out.append("poll acquire-future #%d with waker %s" % (i, "AB"[op % 2]))
+        elif op < 9:
+            out.append("drop (cancel) acquire-future #%d" % (op - 6))
+            alive[op - 6] = False
+        elif op < 13:
+            out.append("drop releaser %s" % ("of future #%d" % (op - 9) if op < 12 else "of try_acquire"))
+        elif op < 17:
+            out.append("disarm releaser %s" % ("of future #%d" % (op - 13) if op < 16 else "of try_acquire"))
+        elif op == 17:
+            out.append("release(%d)" % nx())
+        elif op == 18:
+            out.append("try_acquire(%d)" % nx())
+        else:
+            out.append("<byte %d outside the alphabet>" % op)
+    return out
+
+
+DECODERS = {"mutex_hist_noop": decode_mutex, "mutex_hist_check": decode_mutex,
+            "sem_hist_noop": decode_sem, "sem_hist_check": decode_sem}
 
 
 def decode(name, cfg, script):
